@@ -1255,6 +1255,21 @@ def chain_discipline(ctx, rule, f, producers, label):
     term = [st for st in f.stores_to('myth_thread.next') if isinstance(st.ops[0], dict) and st.ops[0].get('null') and
             is_t(f.ap(st.ops[1]).root) and st.block.id in lp['blocks']]
     ctx.ob(rule, '%s: each element ends the chain' % label, len(term) >= 1, 't->next = 0', loc=p.loc)
+    # as many elements are released as were collected: both loops count i = 0 .. n-1 with the same n
+    def bound_of(L):
+        for ic in f.order:
+            if ic.op == 'icmp' and ic.pred in ('slt', 'ult') and ic.block.id == L['header']:
+                ph = f.get(f.strip(ic.ops[0])) if isinstance(ic.ops[0], str) else None
+                if ph is not None and ph.op == 'phi' and any(const_int(v_) == 0 for v_, b_ in ph.d['incoming']):
+                    return ic.ops[1]
+        return None
+    for x in pushes:
+        Lx = loop_containing(f, x)
+        bc, bx = bound_of(lp), (bound_of(Lx) if Lx is not None else None)
+        ctx.ob(rule, '%s: release loop runs as many times as the collecting loop' % label,
+               bc is not None and bx is not None and same_value(f, bc, bx),
+               'n elements collected, n elements made runnable: one more dereferences the end of the chain, one fewer leaves a waiter asleep',
+               loc=x.loc)
     for x in pushes:
         srcs = set(k for k in f.sources(x.args[1]) if not k.startswith('{'))
         okh = bool(srcs) and all(k in [h.id for h in heads] or k in tsrc or
